@@ -307,6 +307,16 @@ func (c *checkCtx) faults() int {
 			}
 		}
 	}
+	// state transitions and refusals of standalone histories
+	for i := range c.Res.Log.Ev {
+		e := &c.Res.Log.Ev[i]
+		if e.Kind == EvListener && e.L == LBrStateChanged {
+			n++
+		}
+		if e.Kind == EvStandalone && e.L == 1 && (e.A == 0 || e.A == -1) && (e.Str == "br.try" || e.Str == "rl.try" || e.Str == "rl.tryreserve" || e.Str == "bh.try") {
+			n++
+		}
+	}
 	return n
 }
 
